@@ -118,6 +118,10 @@ type expSession struct {
 	persist    map[int][]entities.InfoElementWithValue
 	// C01: called when the application reaches a "cstall" op
 	onConsumerStall func(d time.Duration)
+	// the last data call that went through the plain path and succeeded (op "resend")
+	lastData   *callRec
+	lastDataID uint16
+	lastDataOp int
 }
 
 type writeCall struct {
@@ -498,8 +502,10 @@ func (s *expSession) appGIDInit() { s.appGID = simrt.GoID() }
 // runOps1 executes one op as the application task.
 func (s *expSession) runOps1(i int, op plan.Op) {
 	switch op.K {
-	case "tmpl", "retmpl":
+	case "tmpl", "retmpl", "tmplagain":
 		s.opTmpl(i, op)
+	case "resend":
+		s.opResend(i, op)
 	case "data":
 		s.opData(i, op)
 	case "dataunk":
@@ -580,10 +586,10 @@ func (s *expSession) noteClosed() {
 func (s *expSession) opTmpl(i int, op plan.Op) {
 	slot := int(op.A)
 	old, dup := s.tmpls[slot]
-	if dup && op.K != "retmpl" {
+	if dup && op.K != "retmpl" && op.K != "tmplagain" {
 		return // each template id is defined once per session (but see "retmpl")
 	}
-	if op.K == "retmpl" && (!dup || !old.Sent || old.Ambiguous) {
+	if (op.K == "retmpl" || op.K == "tmplagain") && (!dup || !old.Sent || old.Ambiguous) {
 		return
 	}
 	var specs []elemSpec
@@ -591,6 +597,11 @@ func (s *expSession) opTmpl(i int, op plan.Op) {
 		if sp, ok := specFromKey(k); ok {
 			specs = append(specs, sp)
 		}
+	}
+	if op.K == "tmplagain" {
+		// the application announces a template it has announced before, unchanged (it may do so at
+		// any time): one more template message, nothing else changes
+		specs = old.Specs
 	}
 	if len(specs) == 0 {
 		return
@@ -648,6 +659,11 @@ func (s *expSession) opTmpl(i int, op plan.Op) {
 		} else {
 			s.env.Count("fault.failed_template_redefinition", 1)
 		}
+		return
+	}
+	if op.K == "tmplagain" {
+		s.env.Count("probe.template_announced_again", 1)
+		s.send(callRec{Op: i, Kind: "tmpl", Slot: slot, Valid: true})
 		return
 	}
 	ti := &tmplInfo{ID: id, Specs: specs}
@@ -901,6 +917,30 @@ func (s *expSession) opData1(i int, op plan.Op) {
 		}
 	}
 	c.MsgLen = total
+	s.send(c)
+	if last := s.calls[len(s.calls)-1]; last.Valid && last.Err == nil && len(op.F) == 0 {
+		s.lastData, s.lastDataID, s.lastDataOp = &last, ti.ID, i
+	} else {
+		s.lastData = nil
+	}
+}
+
+// opResend sends the Set object as it stands after a successful data send once more: a Set stays
+// what it is until it is reset. With S == "prep" the application calls PrepareSet again first, with
+// the type and id the Set already has (which changes nothing). The same records go out again, as a
+// new message that counts like any other.
+func (s *expSession) opResend(i int, op plan.Op) {
+	if s.lastData == nil || i != s.lastDataOp+1 || s.set.GetNumberOfRecords() != uint32(len(s.lastData.Records)) || s.set.GetSetType() != entities.Data {
+		return // only directly after the send: nothing else has touched the Set
+	}
+	s.lastDataOp = i
+	if op.S == "prep" {
+		if err := s.set.PrepareSet(entities.Data, s.lastDataID); err != nil {
+			panic(err)
+		}
+	}
+	c := callRec{Op: i, Kind: "data", Slot: s.lastData.Slot, Valid: true, MsgLen: s.lastData.MsgLen, Records: s.lastData.Records}
+	s.env.Count("probe.same_set_sent_again", 1)
 	s.send(c)
 }
 
